@@ -36,6 +36,7 @@ let orc : oracle = {
   o_float_ok = (fun s -> look "float_ok" [h s] = ["1"]);
   o_dur = (fun s -> match look "dur" [h s] with [x] -> z_of_string x | _ -> failwith "bad dur");
   o_int = (fun s -> match look "int" [h s] with ["none"] -> None | [x] -> Some (z_of_string x) | _ -> failwith "bad int");
+  o_uint = (fun s -> match look "uint" [h s] with ["none"] -> None | [x] -> Some (match z_of_string x with Z0 -> N0 | Zpos p -> Npos p | Zneg _ -> N0) | _ -> failwith "bad uint");
   o_lower = (fun s -> s);
   o_mkgeo = (fun k args ->
     match look "mkgeo" (string_of_int (int_of_n k) :: List.map h args) with
